@@ -259,6 +259,10 @@ func replacement(tok []byte, class, repl string) []byte {
 		return []byte("-1")
 	case "longline":
 		return longLine
+	case "lower":
+		return bytes.ToLower(tok)
+	case "upper":
+		return bytes.ToUpper(tok)
 	case "cr":
 		return []byte("\r")
 	case "crlf":
